@@ -220,6 +220,8 @@ MkGen(x) ==
     [] x.kind = "qlinks" -> NewLinksQuery(x.ps, x.out)
     [] x.kind = "qchildren" -> NewChildrenQuery(x.id, x.ps)
     [] x.kind = "qpagelinks" -> NewPageLinksQuery(x.id, x.ps, TRUE, TRUE, TRUE)
+    [] x.kind = "qnetslow" -> NewNetSlowQuery(x.out, x.auto)
+    [] x.kind = "qtop" -> NewTopQuery(x.ps, x.k, x.depth)
     [] OTHER -> QueryGen
 
 CoopRam(rm, gs, S) ==
@@ -269,6 +271,8 @@ CoopClauses(st, rm, d, gs, S, post, o0, o1) ==
       <<"bind.qpagelinks", (gs[S.a.g].kind = "qpagelinks" /\ S.a.done /\ S.exc = "") =>
                               r.g.acc = [j \in 1..Len(S.a.net) |-> <<S.a.net[j].s, S.a.net[j].t, S.a.net[j].w>>]>>,
       <<"bind.qnet",    (gs[S.a.g].kind = "qnet" /\ S.a.done /\ S.exc = "") => r.g.graph = Trip3(S.a.net)>>,
+      <<"bind.qnetslow", (gs[S.a.g].kind = "qnetslow" /\ S.a.done /\ S.exc = "") => r.g.graph = Trip3(S.a.net)>>,
+      <<"bind.qtop",    (gs[S.a.g].kind = "qtop" /\ S.a.done /\ S.exc = "") => r.g.acc = S.a.top>>,
       <<"bind.trie",   r.st.trie = post.trie>>,
       <<"bind.links",  r.st.ls = post.ls>>,
       <<"bind.hdr",    r.st.lastId = post.lastId>>,
